@@ -148,3 +148,34 @@ def _record(res, r, h, tag="bfs"):
         if len(cur[1]) < 3:
             cur[1].append(dict(kind=v["kind"], sig=sig, detail=v.get("detail"), history=list(h), tag=tag,
                                shard=None, choices=None, labels=None))
+
+
+def replay_isolated(run_history, h, tag, kind):
+    """Replay one history in a freshly forked process; True iff a violation of that kind shows again."""
+    import shutil
+
+    ctx = multiprocessing.get_context("fork")
+    q = ctx.Queue()
+
+    def child():
+        d = tempfile.mkdtemp(prefix="gv-confirm-", dir="/dev/shm" if os.path.isdir("/dev/shm") else None)
+        try:
+            P.quiet_stderr()
+            tempfile.tempdir = d
+            r = run_history(h, d, tag)
+            q.put(any(x["kind"] == kind for x in r["violations"]))
+        except BaseException:
+            q.put(False)
+        finally:
+            shutil.rmtree(d, ignore_errors=True)
+
+    p = ctx.Process(target=child)
+    p.start()
+    try:
+        ok = q.get(timeout=1800)
+    except Exception:
+        ok = False
+    p.join(30)
+    if p.is_alive():
+        p.kill()
+    return ok
